@@ -8,6 +8,7 @@ package c07
 import (
 	"context"
 	"fmt"
+	"os"
 	"sort"
 	"strings"
 	"time"
@@ -407,7 +408,7 @@ func drawMany(t *rapid.T) caseT {
 	}
 	c.Focus = []repoT{r}
 	for _, b := range []int{512, 1000, 1023, 1024, 1025, 2047, 2048} {
-		if rapid.IntRange(0, 2).Draw(t, "many_skip") == 0 {
+		if rapid.IntRange(0, 2).Draw(t, "many_skip") != 0 { // ~2 of the 7: each listing unmarshals > 1000 descriptors
 			continue
 		}
 		c.Lists = append(c.Lists, listT{Kind: kind, Batch: b, Conc: drawConc(t), Apply: rapid.Bool().Draw(t, "many_apply")})
@@ -423,6 +424,9 @@ func drawCase(t *rapid.T) caseT {
 	// many = more than 1024 (up to 2100) objects of one kind, listed with pages of 512..2048 and the defaults
 	c := caseT{Profile: rapid.SampledFrom([]string{"mixed", "mixed", "mixed", "mixed", "mixed", "mixed", "mixed", "mixed", "mixed", "mixed",
 		"deep", "deep", "deep", "deep", "wide", "many"}).Draw(t, "profile")}
+	if p := os.Getenv("VERIF_C07_PROFILE"); p != "" {
+		c.Profile = p // development aid: force one profile
+	}
 	if c.Profile == "many" {
 		return drawMany(t)
 	}
